@@ -111,6 +111,12 @@ func Case(w *vt.W, rng *rand.Rand, id, maxLen int) {
 		minLen, minID, self, nplants = 200, 0.75, false, 1
 		lt = 4500 + rng.Intn(maxLen-4499)
 	}
+	// settings under which the short repeat with differences near its ends (below) shares k-mers with the target
+	// over less than the minimum hit length: word length 10, minimum 50 or 60
+	shortEnds := !shortSeed && rng.Intn(6) == 0
+	if shortEnds {
+		minLen, minID, self = []int{50, 60}[rng.Intn(2)], 0.9, false
+	}
 	T := randSeq(rng, lt)
 	var Q []byte
 	var plants []Plant
@@ -186,13 +192,8 @@ func Case(w *vt.W, rng *rand.Rand, id, maxLen int) {
 		}
 		// a short repeat (a fifth longer than the minimum) whose only differences are two substitutions near
 		// its ends, so that the k-mers it shares with the target span less than the minimum hit length
-		if ln := minLen * 6 / 5; rng.Intn(2) == 0 && int(float64(ln)*(1-minID)/3) >= 2 {
+		if ln := minLen * 6 / 5; (shortEnds || rng.Intn(2) == 0) && int(float64(ln)*(1-minID)/3) >= 2 {
 			d := 7 + rng.Intn(4)
-			if rng.Intn(2) == 0 {
-				// tighter still: six letters longer than the minimum, differences four letters from the ends, so that
-				// the shared k-mers span less than the minimum whatever the word length
-				ln, d = minLen+6, 4
-			}
 			ta := rng.Intn(len(T) - ln)
 			cp := append([]byte{}, T[ta:ta+ln]...)
 			for _, pos := range []int{d, ln - 1 - d} {
@@ -260,8 +261,11 @@ func runCase(id int, T, Q []byte, self bool, minLen int, minID float64, plants [
 	ev := vt.Ev{"id": id, "minlen": minLen, "minid_ppm": int(minID*1e6 + 0.5), "self": self, "tlen": len(T), "qlen": len(Q),
 		"plants": plantEvs(plants), "err": "", "panic": "", "passes": []vt.Ev{}}
 	if os.Getenv("VERIF_DUMP_CASE") == fmt.Sprint(id) {
-		// for replaying one case by hand: the sequences themselves
+		// for replaying one case by hand: the sequences themselves (also written at once, in case the run dies)
 		ev["T"], ev["Q"] = string(T), string(Q)
+		if f := os.Getenv("VERIF_DUMP_FILE"); f != "" {
+			ioutil.WriteFile(f, []byte(fmt.Sprintf("%d\n%v\n%v\n%s\n%s\n", minLen, minID, self, T, Q)), 0644)
+		}
 	}
 	func() {
 		defer func() {
@@ -284,7 +288,11 @@ func runCase(id int, T, Q []byte, self bool, minLen int, minID float64, plants [
 		if !self {
 			qs = linear.NewSeq("q", alphabet.BytesToLetters(append([]byte{}, Q...)), alphabet.DNA)
 		}
-		p := pals.New(ts, qs, self, m, 0, nil, nil)
+		// a memory cap for Optimise, as a user of PALS on a shared machine would give: without one it picks the
+		// longest word the seed allows (k = 15 for minimum length 60 at identity 0.94) and the k-mer index alone
+		// takes 4^15 * 8 bytes = 8.6 GB
+		maxMem := uintptr(1 << 30)
+		p := pals.New(ts, qs, self, m, 0, &maxMem, nil)
 		if err := p.Optimise(minLen, minID); err != nil {
 			ev["err"] = "optimise: " + err.Error()
 			return
